@@ -233,6 +233,7 @@ structure Drv where
   servers : List Server := []
   scheduled : Bool := false                -- nextReconnectTime is set
   attempt : Int := -1
+  sock : Nat := 0                          -- sockets opened so far (the current one has this number)
 deriving DecidableEq, Repr
 
 structure St where
@@ -261,6 +262,7 @@ structure St where
   drv : Drv := {}
   db : Db := {}
   now : Nat := 0
+  wire : List (Nat × Out) := []   -- real driver: what was written during this operation, with the socket number
   -- ghost (not observable in the implementation; used by the theorems)
   epoch : Nat := 0          -- number of Irc.reset() calls so far
   endCount : Nat := 0       -- CAP END sent in this epoch
@@ -374,17 +376,24 @@ def parseStsPolicy (policy : Str) (parseDuration : Bool) : Option StsPolicy :=
       | some dur => some ⟨p, some dur⟩
     else some ⟨p, none⟩
 
+/-- has the stored policy expired: the duration counts from the last recorded disconnection; none
+recorded = not started to expire -/
+def stsExpired (last : Option Nat) (dur : Int) (now : Nat) : Bool :=
+  match last with
+  | none => false
+  | some l => decide (Int.ofNat l + dur < Int.ofNat now)
+
 /-- ServersMixin._applyStsPolicy.  `none` = the code raises (stored policy no longer parses). -/
 def applyStsPolicy (s : St) (server : Server) : Option (Server × St) :=
-  match dictGet s.db.policies server.host, dictGet s.db.lastDisc server.host with
-  | some policy, some last =>
+  match dictGet s.db.policies server.host with
+  | none => some (server, s)
+  | some policy =>
     match parseStsPolicy policy true with
     | some ⟨port, some dur⟩ =>
-      if (Int.ofNat last) + dur < Int.ofNat s.now then
+      if stsExpired (dictGet s.db.lastDisc server.host) dur s.now then
         some (server, { s with db := { s.db with policies := dictDel s.db.policies server.host } })
       else some (⟨server.host, port, server.attempt, true⟩, s)
     | _ => none
-  | _, _ => some (server, s)
 
 /-- ServersMixin._getNextServer: next entry of the server list (reloaded from the configuration when
 exhausted) with the stored STS policy applied.  `none` = assertion / exception. -/
@@ -402,7 +411,8 @@ def tlsChoice (cfg : Cfg) (srv : Server) : Bool × Bool :=
 def connectTo (cfg : Cfg) (srv : Server) (s : St) : St :=
   let srv' : Server := { srv with attempt := some (srv.attempt.getD s.drv.attempt) }
   event (.connected srv' (tlsChoice cfg srv').1 (tlsChoice cfg srv').2)
-    { s with drv := { s.drv with current := srv', attempt := srv.attempt.getD s.drv.attempt, connected := true } }
+    { s with drv := { s.drv with current := srv', attempt := srv.attempt.getD s.drv.attempt, connected := true,
+                                 sock := s.drv.sock + 1 } }
 
 /-- SocketDriver.reconnect(wait=False) after the reset: pick the server, connect, maybe TLS -/
 def drvConnect (cfg : Cfg) (server : Option Server) (s : St) : St :=
@@ -798,5 +808,33 @@ def initSt (cfg : Cfg) (base : St) : St :=
 
 /-- the first observation: `Irc(network)` and everything it queued -/
 def start (cfg : Cfg) (base : St) : StepResult := observeStep (ok (initSt cfg base))
+
+/-! ### SocketDriver: the run loop -/
+
+/-- SocketDriver._sendIfMsgs: everything the Irc object hands out goes to the current socket -/
+def flush (s : St) : St :=
+  if s.drv.connected then
+    { s with wire := s.wire ++ (s.fastq ++ s.slowq).map (fun o => (s.drv.sock, o)), fastq := [], slowq := [] }
+  else s
+
+/-- the loop of SocketDriver._read over the complete lines of one recv(): the lines are fed to the Irc
+object one by one; once a handler made the driver reconnect (another socket, or not connected any more)
+the rest of the chunk — sent by the server of the connection just left — is dropped -/
+def feedLines (cfg : Cfg) : List Msg → St → St
+  | [], s => s
+  | m :: ms, s =>
+    let s' := (feedMsg cfg m s).st
+    if s'.drv.sock ≠ s.drv.sock ∨ s'.drv.connected = false then s' else feedLines cfg ms s'
+
+/-- `SocketDriver(irc)`: `connect()` = `reconnect(reset=False)` -/
+def drvStart (cfg : Cfg) (s : St) : St :=
+  flush (drvConnect cfg none { s with drv := { s.drv with attempt := s.drv.attempt + 1, scheduled := false }, ev := [], wire := [] })
+
+/-- one `SocketDriver.run()`: the scheduled reconnect if it is due, then (when connected) flush, read the
+lines of one recv(), flush.  `now` is the clock, `due` = "`now > nextReconnectTime`". -/
+def drvRun (cfg : Cfg) (now : Nat) (due : Bool) (lines : List Msg) (s : St) : St :=
+  let s0 := { s with now := now, ev := [], wire := [] }
+  let s1 := if s0.drv.scheduled && due then realReconnect cfg false none (event (.reconnect false none) s0) else s0
+  if s1.drv.connected then flush (feedLines cfg lines (flush s1)) else s1
 
 end C08
